@@ -259,6 +259,62 @@ def _sized_squeeze(rep, R7, fi, pname):
         rep.ok(R7, fi.site(), fi.fq, "no dimensionless squeeze of input-derived tensors", f"{named} squeeze call(s), all with an axis")
 
 
+AXIS_POS = {"unsqueeze": 0, "squeeze": 0, "flatten": 0, "chunk": 1, "split": 1, "narrow": 0, "sum": 0, "mean": 0, "prod": 0, "softmax": 0, "log_softmax": 0, "cumsum": 0,
+            "select": 0, "index_select": 0, "gather": 0, "unbind": 0, "amax": 0, "amin": 0, "norm": 1, "roll": 1, "flip": 0, "movedim": 0, "repeat_interleave": 1}
+
+
+def r8_feature_axis_from_the_end(repo: Repo, rep):
+    R = rep.rule("R-C08-8", "models that accept several batch axes (and their building-block layers) address tensor axes of input-derived values from the end only "
+                 "(dim=-1 for the features), never by a non-negative position", floor=8,
+                 why="axis 1 is the feature axis only for a single batch axis: with two batch axes a split / reduction along it cuts through the rows")
+    mods = [m for name, m in repo.modules.items() if name.startswith("torchphysics.models.") and name.split(".")[-1] in ("qres", "deepritz", "activation_fn", "model", "fcn")]
+    for m in mods:
+        for ci in m.classes.values():
+            if ci.name in ("Polynomial_FCN",):
+                continue  # documented for one batch axis: its contraction runs over an axis it creates itself
+            fi = ci.methods.get("forward")
+            if fi is None or len(fi.params) < 2:
+                continue
+            rep.saw(fi)
+            tainted = set(fi.params[1:])
+            changed = True
+            while changed:
+                changed = False
+                for n in ast.walk(fi.node):
+                    tg = n.targets if isinstance(n, ast.Assign) else [n.target] if isinstance(n, (ast.AugAssign, ast.For)) else None
+                    val = n.value if isinstance(n, (ast.Assign, ast.AugAssign)) else n.iter if isinstance(n, ast.For) else None
+                    if tg is None or not any(isinstance(x, ast.Name) and x.id in tainted for x in ast.walk(val)):
+                        continue
+                    for t in tg:
+                        for x in ast.walk(t):
+                            if isinstance(x, ast.Name) and x.id not in tainted:
+                                tainted.add(x.id)
+                                changed = True
+            bad = []
+            for c in ast.walk(fi.node):
+                if not (isinstance(c, ast.Call) and isinstance(c.func, ast.Attribute)):
+                    continue
+                name = c.func.attr
+                is_mod = (attr_chain(c.func.value) or "") in ("torch", "torch.nn.functional", "torch.linalg")
+                subject = (c.args[0] if c.args else None) if is_mod else c.func.value
+                if subject is None or not any(isinstance(x, ast.Name) and x.id in tainted for x in ast.walk(subject)):
+                    continue
+                axes = [k.value for k in c.keywords if k.arg in ("dim", "axis", "dims", "start_dim", "end_dim")]
+                if name in AXIS_POS:
+                    pos = AXIS_POS[name] + (1 if is_mod else 0)
+                    if len(c.args) > pos:
+                        axes.append(c.args[pos])
+                if name in ("transpose", "permute", "swapaxes"):
+                    axes += list(c.args[1:] if is_mod else c.args)
+                if name in ("cat", "stack", "concat") and is_mod and len(c.args) > 1:
+                    axes.append(c.args[1])
+                for a in axes:
+                    for x in ([a] if not isinstance(a, (ast.Tuple, ast.List)) else a.elts):
+                        if isinstance(x, ast.Constant) and isinstance(x.value, int) and not isinstance(x.value, bool) and x.value >= 0:
+                            bad.append(f"{dump(c)[:60]} (axis {x.value})")
+            rep.check(R, not bad, fi.site(), fi.fq, "axes of input-derived tensors are addressed from the end", str(sorted(set(bad))[:2]), str(sorted(set(bad))[:2]))
+
+
 def _axes_decide(rep, R6, ci, fi, mix):
     """re-arranging operations in a row-wise model: decide by axis roles for inputs with one and with two batch axes"""
     from ..absdom.axes import AxesEval, NotAxes, Scrambled
@@ -500,6 +556,7 @@ def run(repo: Repo, rep):
     r2_fix_points_order(repo, rep)
     r3_compositions(repo, rep)
     r4_purity_and_label(repo, rep)
+    r8_feature_axis_from_the_end(repo, rep)
     from .c12 import r1_pairing, r3_selection, r6_empty_and_slices  # the name-based selection and the join (Points.joined) this property's idioms rely on
     r3_selection(repo, rep)
     r1_pairing(repo, rep)
